@@ -695,14 +695,14 @@ def run(ctx, res):
                 for r in (["I", 1], ["I", 2], ["F", 0.5], ["F", 0.99]):
                     rows.append(est_cell("density", n, nl, None, r, None))
         order = rng.permutation(len(cells))
-        todo = rows + [cells[i] for i in order]
+        todo = [rows[i] for i in rng.permutation(len(rows))] + [cells[i] for i in order]
         res.exhaustive = False
     else:
         todo = cells
     n_grid = 0
     grid_end = t0 + budget * (0.55 if quick else 0.85)
     for p in todo:
-        if time.time() > grid_end:
+        if time.time() > grid_end and n_grid >= (30 if quick else 0):      # a quick run never skips the grid entirely
             break
         run_case(ctx, res, p)
         n_grid += 1
